@@ -1,0 +1,201 @@
+//! Verification hooks (compiled only with `--cfg grevm_verif`).
+//!
+//! With the cfg off this module does not exist and the crate is unchanged. With the cfg on and no
+//! hook registered every call below is a no-op, so the same build also runs free-threaded.
+//!
+//! * [`point`] reports one atomic group the calling thread has just performed and offers the
+//!   registered driver a context switch.
+//! * [`before_lock`] is called before a scheduler-owned `parking_lot` lock is taken so that a
+//!   cooperative driver never lets the calling thread block on a mutex held by a paused thread.
+//! * [`park_timeout`] / [`unpark`] route the coordinator parker through the driver.
+//! * the sub-modules expose crate-private components to the differential drivers in `/verif`.
+#![allow(missing_docs, missing_debug_implementations, unreachable_pub, dead_code)]
+
+use std::{
+    collections::HashMap,
+    sync::{Arc, Mutex, RwLock},
+    thread::Thread,
+    time::Duration,
+};
+
+pub mod ben;
+pub mod cache;
+pub mod facade;
+pub mod flat;
+pub mod guard;
+pub mod objects;
+pub mod reserve;
+
+/// One reported atomic group: a kind tag and up to six integers (`-1` = absent).
+#[derive(Clone, Debug, PartialEq, Eq)]
+pub struct Ev {
+    pub kind: &'static str,
+    pub a: [i64; 6],
+}
+
+pub const NONE: i64 = -1;
+
+pub trait Hook: Send + Sync {
+    /// The calling thread performed `ev`; may block until the driver grants the next step.
+    fn point(&self, ev: Ev);
+    /// Called before `lock()`; must return only when `is_locked()` is false and no other driven
+    /// thread can run before the caller takes the lock.
+    fn before_lock(&self, is_locked: &dyn Fn() -> bool);
+    /// Replacement for `thread::park_timeout`.
+    fn park(&self, timeout: Duration);
+    /// Called just before `Thread::unpark`.
+    fn unpark(&self, thread: &Thread);
+    fn thread_begin(&self, role: &'static str);
+    fn thread_end(&self, panicking: bool);
+}
+
+static HOOK: RwLock<Option<Arc<dyn Hook>>> = RwLock::new(None);
+
+pub fn set_hook(hook: Option<Arc<dyn Hook>>) {
+    *HOOK.write().unwrap_or_else(|e| e.into_inner()) = hook;
+}
+
+fn hook() -> Option<Arc<dyn Hook>> {
+    HOOK.read().unwrap_or_else(|e| e.into_inner()).clone()
+}
+
+#[inline]
+pub fn active() -> bool {
+    hook().is_some()
+}
+
+#[inline]
+pub fn point(kind: &'static str, a: [i64; 6]) {
+    if let Some(h) = hook() {
+        h.point(Ev { kind, a });
+    }
+}
+
+#[inline]
+pub fn p0(kind: &'static str) {
+    point(kind, [NONE; 6]);
+}
+#[inline]
+pub fn p1(kind: &'static str, a: i64) {
+    point(kind, [a, NONE, NONE, NONE, NONE, NONE]);
+}
+#[inline]
+pub fn p2(kind: &'static str, a: i64, b: i64) {
+    point(kind, [a, b, NONE, NONE, NONE, NONE]);
+}
+#[inline]
+pub fn p3(kind: &'static str, a: i64, b: i64, c: i64) {
+    point(kind, [a, b, c, NONE, NONE, NONE]);
+}
+#[inline]
+pub fn p4(kind: &'static str, a: i64, b: i64, c: i64, d: i64) {
+    point(kind, [a, b, c, d, NONE, NONE]);
+}
+#[inline]
+pub fn p5(kind: &'static str, a: i64, b: i64, c: i64, d: i64, e: i64) {
+    point(kind, [a, b, c, d, e, NONE]);
+}
+
+#[inline]
+pub fn opt(v: Option<usize>) -> i64 {
+    v.map_or(NONE, |v| v as i64)
+}
+
+#[inline]
+pub fn before_lock<T>(m: &parking_lot::Mutex<T>) {
+    if let Some(h) = hook() {
+        h.before_lock(&|| m.is_locked());
+    }
+}
+
+pub fn park_timeout(timeout: Duration) {
+    match hook() {
+        Some(h) => h.park(timeout),
+        None => std::thread::park_timeout(timeout),
+    }
+}
+
+#[inline]
+pub fn unpark(thread: &Thread) {
+    if let Some(h) = hook() {
+        h.unpark(thread);
+    }
+}
+
+/// RAII marker for a driven scheduler thread.
+pub struct ThreadScope(());
+
+pub fn thread_begin(role: &'static str) -> ThreadScope {
+    if let Some(h) = hook() {
+        h.thread_begin(role);
+    }
+    ThreadScope(())
+}
+
+impl Drop for ThreadScope {
+    fn drop(&mut self) {
+        if let Some(h) = hook() {
+            h.thread_end(std::thread::panicking());
+        }
+    }
+}
+
+// ---------------------------------------------------------------------------------------------
+// Interning of locations and values, so that traces carry small integers.
+
+static INTERN: Mutex<Option<Interner>> = Mutex::new(None);
+
+#[derive(Default)]
+struct Interner {
+    ids: HashMap<String, i64>,
+    names: Vec<String>,
+}
+
+/// Intern `name`; equal strings get equal ids (ids start at 0, dense, first come first served).
+pub fn intern(name: String) -> i64 {
+    let mut guard = INTERN.lock().unwrap_or_else(|e| e.into_inner());
+    let table = guard.get_or_insert_with(Interner::default);
+    if let Some(id) = table.ids.get(&name) {
+        return *id;
+    }
+    let id = table.names.len() as i64;
+    table.ids.insert(name.clone(), id);
+    table.names.push(name);
+    id
+}
+
+/// Snapshot of the interning table (index = id).
+pub fn interned() -> Vec<String> {
+    INTERN.lock().unwrap_or_else(|e| e.into_inner()).as_ref().map_or_else(Vec::new, |t| t.names.clone())
+}
+
+pub fn reset_interner() {
+    *INTERN.lock().unwrap_or_else(|e| e.into_inner()) = None;
+}
+
+pub(crate) fn loc_id(location: &crate::LocationAndType) -> i64 {
+    use crate::LocationAndType as L;
+    intern(match location {
+        L::Basic(a) => format!("B:{a:x}"),
+        L::Storage(a, s) => format!("S:{a:x}:{s:x}"),
+        L::StorageReset(a) => format!("R:{a:x}"),
+        L::Code(a) => format!("C:{a:x}"),
+    })
+}
+
+pub fn info_digest(info: Option<&revm_state::AccountInfo>) -> String {
+    match info {
+        None => "acct:none".to_owned(),
+        Some(i) => format!("acct:{:x}:{}:{:x}", i.balance, i.nonce, i.code_hash),
+    }
+}
+
+pub(crate) fn val_id(value: &crate::MemoryValue) -> i64 {
+    use crate::MemoryValue as V;
+    intern(match value {
+        V::Basic(info) => info_digest(info.as_ref()),
+        V::Code(code) => format!("code:{:x}", code.hash_slow()),
+        V::Storage(v) => format!("u:{v:x}"),
+        V::StorageReset => "reset".to_owned(),
+    })
+}
